@@ -129,11 +129,11 @@ package multiendpoint
 //@ func NewMultiEndpoint
 //@   requires b != nil
 //@   absmodifies $meHas
-// M8 for a new MultiEndpoint: nothing is available yet, and the ghost counter of an object that did not exist has no
-// scheduled timers (stated)
+// M8 for a new MultiEndpoint: nothing is available yet, and the ghost counter of a new object starts at zero (ghost
+// state about an object is zero-initialised at its allocation). The constructor holds the object's lock while it creates
+// the endpoints (their recovery timers are scheduled there), so M0-M8 are obligations at its release.
 //@   ensures [C14.new-no-switch] $ret1 == nil ==> !needSwitch($ret0.(*multiEndpoint))
-//@   absmodifies $pendSwitch
-//@   absensures [C14.new-no-timers] $ret1 == nil ==> $pendSwitch[$ret0.(*multiEndpoint)] == 0
+//@   ensures [C14.new-no-timers] $ret1 == nil ==> $pendSwitch[$ret0.(*multiEndpoint)] == 0
 //@   absensures [C15,C16 abs-new] $ret1 == nil ==> $ret0 != nil && (forall e string :: {mekey($ret0, e)} $meHas[mekey($ret0, e)] == (exists j, x in b.Endpoints :: x == e))
 //@   absensures [C15,C16 abs-new-frame] forall m MultiEndpoint, e string :: {mekey(m, e)} m != $ret0 ==> $meHas[mekey(m, e)] == old($meHas)[mekey(m, e)]
 //@   ensures [C13.reject-empty] len(b.Endpoints) == 0 ==> $ret1 != nil
